@@ -110,6 +110,16 @@ def build_config(c, kind, rng):
         g.lowers = [(b, "/l")]
         g.prepop = [(lb, "")]
         g.watch = [a, b]
+    elif kind == "ovl_lo_ovl":
+        # the LOWER layer is itself an overlay (a filesystem on which remove_file of a directory succeeds: finding D15)
+        c.base("mem"); c.base("mem"); c.base("mem")
+        a = c.fs("base", 0); b = c.fs("base", 1); d = c.fs("base", 2)
+        inner = c.fs("ovl", 2, a, "-", b, "-")
+        g.target = c.fs("ovl", 2, d, "-", inner, "-")
+        g.upper = (d, "")
+        g.lowers = [(inner, "")]
+        g.prepop = [(inner, "")]
+        g.watch = [a, b, d, inner]
     elif kind == "ovl_ovl":
         c.base("mem"); c.base("mem"); c.base("mem")
         a = c.fs("base", 0); b = c.fs("base", 1); d = c.fs("base", 2)
@@ -541,6 +551,65 @@ def matrix_cases(prefix, kinds, rng=None, two_path=True, c01_domain=False, root_
                     for w in g.watch:
                         c.op("snap", w)
                     cases.append(c)
+    return cases
+
+
+def type_conflict_cases(prefix):
+    """layers whose contents CONFLICT in type: a file /x in an upper layer over a directory /x with children in a layer
+    below it.  The overlay then shows /x as a file and still resolves /x/c below it (finding D31)"""
+    rng = random.Random(53)
+    cases = []
+    for kind, hi, lo in (("ovl_mm", "upper", 0), ("ovl_mmm", 0, 1), ("ovl_pp", "upper", 0)):
+        c = vfx.Case("%s_typeconflict_%s" % (prefix, kind))
+        g = build_config(c, kind, rng)
+        c.cfg = g
+        t = g.target
+        fi, fsub = g.upper if hi == "upper" else g.prepop[hi]
+        di, dsub = g.prepop[lo]
+        write_file(c, fi, (fsub[1:] + "/" if fsub else "") + "x", b"a file")
+        c.op("createdirall", vfx.ps(di, (dsub[1:] + "/" if dsub else "") + "x"))
+        write_file(c, di, (dsub[1:] + "/" if dsub else "") + "x/c", b"below")
+        c.op("snap", t)
+        c.first_snap = c.nops - 1
+        c.op("metadata", vfx.ps(t, "x")); c.op("exists", vfx.ps(t, "x/c")); c.op("readtostring", vfx.ps(t, "x/c"))
+        c.op("readdir", "%d:" % t); c.op("walkdir", "%d:" % t)
+        cases.append(c)
+    return cases
+
+
+def lower_only_cases(prefix, kinds):
+    """every one-path operation on entries that ONLY a lower layer holds (a non-empty directory, a file in it, an empty
+    directory): whatever the call answers, no mutating call may reach a lower layer"""
+    rng = random.Random(47)
+    cases = []
+    for kind in kinds:
+        for opk in ONE_PATH_OPS:
+            for tk, tp in (("dir", "d"), ("file", "d/f"), ("emptydir", "m"), ("deepdir", "d/e")):
+                c = vfx.Case("%s_lowonly_%s_%s_%s" % (prefix, kind, opk, tk))
+                g = build_config(c, kind, rng)
+                c.cfg = g
+                t = g.target
+                lo, sub = g.prepop[-1]
+                base = sub[1:] + "/" if sub else ""
+                c.op("createdirall", vfx.ps(lo, base + "d/e"))
+                write_file(c, lo, base + "d/f", b"lower file")
+                write_file(c, lo, base + "d/e/h", b"deeper")
+                c.op("createdirall", vfx.ps(lo, base + "m"))
+                c.op("clearlog")
+                c.op("snap", t)
+                c.first_snap = c.nops - 1
+                if opk in ("createfile", "appendfile"):
+                    h = c.op(opk, _ps(t, tp)); c.op("hwrite", h, vfx.hexs(b"NEW")); c.op("hdrop", h)
+                elif opk == "openfile":
+                    h = c.op(opk, _ps(t, tp)); c.op("hreadtoend", h); c.op("hdrop", h)
+                elif opk in ("setmtime", "setctime", "setatime"):
+                    c.op(opk, _ps(t, tp), TIMES[1])
+                else:
+                    c.op(opk, _ps(t, tp))
+                c.op("snap", t)
+                for w in g.watch:
+                    c.op("snap", w)
+                cases.append(c)
     return cases
 
 
